@@ -144,6 +144,10 @@ pub enum Event {
         /// classic pull only: the caller's message buffer is this many bytes longer than needed
         #[serde(default)]
         extra: usize,
+        /// after the rejection the application rolls its pull state back to the copy (`Clone`) it
+        /// took before the call — a checkpoint must be an exact copy
+        #[serde(default)]
+        restore: bool,
     },
     Drain,
 }
@@ -503,7 +507,8 @@ impl World for StreamWorld {
         ss::crypto_secretstream_xchacha20poly1305_keygen(&mut key);
         let c = cfg.counter.value();
         // Tx: header chosen by dryoc through the simulated generator
-        let mut header = [0u8; 24];
+        // (a quarter of the runs hand init_push a header variable that still holds something)
+        let mut header = if cfg.rseed & 24 == 24 { [0xEEu8; 24] } else { [0u8; 24] };
         let (tx, tx_parts) = match cfg.tx {
             TxFlavour::Classic => {
                 // half of the classic runs initialise a *reused* state object (dirty key, nonce
@@ -535,10 +540,16 @@ impl World for StreamWorld {
         let mut ref_tx = sodium::init_pull(&header, &key);
         ref_tx.nonce[..4].copy_from_slice(&c.to_le_bytes());
         let ref_rx = ref_tx;
-        // a second sender: other key, other header, same counter
+        // a second sender at the same counter: other key and a fresh header variable, or (half of
+        // the runs) a second session under the SAME key whose caller re-uses the header variable
+        // of the first — init_push must overwrite it with a fresh header
         let mut fkey = [0u8; 32];
         ss::crypto_secretstream_xchacha20poly1305_keygen(&mut fkey);
         let mut fh = [0u8; 24];
+        if cfg.rseed & 4 == 4 {
+            fkey = key;
+            fh = header;
+        }
         let mut fst = ss::State::new();
         ss::crypto_secretstream_xchacha20poly1305_init_push(&mut fst, &mut fh, &fkey);
         let foreign = with_counter(fst.verif_parts(), c);
@@ -685,7 +696,8 @@ impl World for StreamWorld {
                 _ => Wrong::Garbage { len: rng.usize_below(2 * 17 + 65), kind: rng.below(9) as u8 },
             };
             let extra = if matches!(self.rx, Rx::Classic(_)) && !matches!(kind, Wrong::AdPresence | Wrong::ShortBuffer { .. } | Wrong::ShortForged { .. } | Wrong::HeaderFlip { .. } | Wrong::KeyFlip { .. }) && rng.chance(1, 5) { 1 + rng.usize_below(40) } else { 0 };
-            return Some(Event::DeliverWrong { kind, extra });
+            let restore = rng.chance(1, 4);
+            return Some(Event::DeliverWrong { kind, extra, restore });
         }
         self.last_was_special = false;
         Some(Event::DeliverNext)
@@ -778,7 +790,7 @@ impl World for StreamWorld {
                 out.shape("N");
                 self.deliver_next(out, false);
             }
-            Event::DeliverWrong { kind, extra } => {
+            Event::DeliverWrong { kind, extra, restore } => {
                 self.consume_markers(out);
                 let pending = self.pending_packets();
                 if pending.is_empty() {
@@ -1006,6 +1018,10 @@ impl World for StreamWorld {
                         }
                     }
                     self.last_reject = Some(kind.kind());
+                    if *restore {
+                        out.fault("rollback_to_cloned_state");
+                        self.rx = rx_before;
+                    }
                 }
                 if accepted != ref_accept {
                     out.violate("C03", "c03.verdict_parity", site(&[("kind", kind.kind())]), format!("dryoc {} but libsodium {} the same bytes (kind {:?})", if accepted { "accepts" } else { "rejects" }, if ref_accept { "accepts" } else { "rejects" }, kind));
@@ -1054,9 +1070,10 @@ impl World for StreamWorld {
                 }
                 v
             }
-            Event::DeliverWrong { kind, extra } => {
+            Event::DeliverWrong { kind, extra, restore } => {
                 let extra = *extra;
-                let mk = |k: Wrong| Event::DeliverWrong { kind: k, extra };
+                let restore = *restore;
+                let mk = |k: Wrong| Event::DeliverWrong { kind: k, extra, restore };
                 match kind {
                     Wrong::BitFlip { at, bit } if *bit > 0 => vec![mk(Wrong::BitFlip { at: *at, bit: 0 })],
                     Wrong::AdFlip { bit } if *bit > 0 => vec![mk(Wrong::AdFlip { bit: 0 })],
